@@ -321,6 +321,9 @@ func udpMonitors(ctx *Ctx, prop string, cs *udpCaseSpec, obs []udpOpObs, shutdow
 					wantLen = 19
 				}
 				if rp.Status != "OK" {
+					if rp.CB != 0 {
+						ctx.Monitor("C16/client-bytes-on-undelivered-reply", fmt.Sprintf("a reply that was not delivered (%s) is reported with %d bytes sent to the client", rp.Status, rp.CB), rep)
+					}
 					if len(want) <= 65469-19 { // certainly fits every cipher and address form
 						ctx.Monitor("C03/reply-dropped", fmt.Sprintf("a %d-byte reply was dropped with %s", len(want), rp.Status), rep)
 					}
